@@ -12,7 +12,7 @@ ENGINES = [
     {
         "name": "enum",
         "path": "vf/engine/runner.py vf/ref/",
-        "serves_properties": ["C01", "C02", "C03", "C15", "C17", "C18", "C20"],
+        "serves_properties": ["C01", "C02", "C03", "C13", "C14", "C15", "C16", "C17", "C18", "C20"],
         "kind_free_text": "bounded-exhaustive enumerator for sequential code: Cartesian products of boundary alphabets, exhaustive short "
         "byte spaces, mutation neighbourhoods and complete fault/lifecycle products, every case run on the real code and compared with an "
         "independent reference (ISO 14229-1 layout table vf/ref/iso14229.py, lifecycle model vf/ref/c15_model.py); 16-way process pool",
@@ -244,6 +244,41 @@ CHECKS = [
         "the Ranges / Ranges2D pydantic types: result = sorted union (per outer key; bare key = all). 4.9 M evaluations quick, 86 M thorough.",
         "note": "Trusted: pydantic, urllib, ipaddress, vf/ref/c20_model.py. Hosts are compared as hosts. Reversed ranges, empty parts and undocumented whitespace "
         "may be rejected with ValueError but never silently differ. Not covered: zone-id IPv6 hosts, 4-token expressions with wide ranges, Windows schemes.",
+    },    {
+        "id": "C13",
+        "engine": "enum",
+        "level": "model_checking",
+        "technique": "explicit-state exploration of the real UDSServer (reachable states found by executing request histories on fresh objects, closure under the alphabet verified) against an ISO 14229-1 decision-list reference computed from the model",
+        "text": "Every reachable server state (session x security level x pending seed) of 3 hand-built and 13 (quick) / 76 (thorough) random models; in each state "
+        "every SID x 0..2 payload bytes over boundary bytes and all model sub-functions with and without suppress bit, plus structured ISO requests and keys "
+        "(7.7-9 k requests per state quick, 19-21 k thorough; 3.7 M / 75 M transitions). Reply and successor state equal the reference list (0x11 / 0x7F / "
+        "0x13 / 0x12 / 0x7E / 0x13 in this priority, RoutineControl exempt, default positives, SecurityAccess sequencing); suppression iff positive and "
+        "suppress bit; state changes exactly on positive DSC / even SecurityAccess / ECUReset; inactivity boundary 10.0 / 10.5 s on a virtual clock; all 512 "
+        "behaviour-switch subsets on one representative per decision class with the differential 'switching one rule off only removes that rule'.",
+        "note": "Trusted: vf/ref/c13_model.py tables (ISO 14229-1:2013), virtual clock, controlled entropy for SecurityAccess seeds. Listed as uncovered: services "
+        "without a gallia codec, reserved / edition-dependent layouts. Switch subsets are applied for one step from states of the default configuration.",
+    },
+    {
+        "id": "C14",
+        "engine": "enum",
+        "level": "model_checking",
+        "technique": "invariant checking over the explicit state space of the real UDSServer: every request of the alphabet in every reachable state, replies re-checked by the real client matcher; one long history through the real handle_client loop",
+        "text": "In every reachable state (180 quick / 1620 thorough) every SID x 0..8 payload bytes (patterned beyond 2), 4095-byte requests, structured ISO requests "
+        "and everything gallia's 40+ request classes serialise (6.2 M / 126 M transitions): handle_request never raises, the session stays one the model offers, "
+        "every reply passes helpers.parse_pdu both for RawRequest(req) and for parse_dynamic(req); the whole alphabet as one history through the real "
+        "TCPUDSServerTransport.handle_client (StreamReader) is consumed to EOF with replies identical to direct handle_request.",
+        "note": "Default behaviour switches only. No real socket segmentation here (C19 covers framing). parse_pdu verdicts memoised as a pure function.",
+    },
+    {
+        "id": "C16",
+        "engine": "enum",
+        "level": "exploration",
+        "technique": "differential transcripts (model dump + exhaustive request battery + histories) across separate interpreter processes with different hash seeds, import orders and clocks, plus graph search on every generated model",
+        "text": "Model and answers to an exhaustive request battery per session plus SecurityAccess / reset histories, built through RngVirtualECUConfig -> "
+        "RngVirtualECU._server(), for 8 parameter sets x 24/3 (quick) or 256/16 (thorough) seeds, in child interpreters with PYTHONHASHSEED 0/1/4242/random x 2 "
+        "import orders x 2 clock bases (7 environments quick, 16 thorough; 4.9 M / 136 M answer lines compared): byte-identical except masked SecurityAccess "
+        "seeds; mandatory sessions and services present; every offered session reachable from session 1 and able to return to it; setup twice gives the same model.",
+        "note": "Children run unmodified gallia except a deterministic clock. Quick-tier batteries cover at most 3 sessions per model.",
     },
 ]
 
